@@ -1605,6 +1605,7 @@ func TestVerif_C04(t *testing.T) {
 	}
 	r.temporal(cfgs)
 	r.profileFallback(cfgs)
+	r.storedRefresh(cfgs)
 	for ci, cfg := range cfgs {
 		rng := rand.New(rand.NewSource(run.Env.Seed*1000003 + int64(ci)))
 		base := c04Baseline(cfg, false)
@@ -1687,4 +1688,116 @@ func TestVerif_C04(t *testing.T) {
 	run.Extra("configurations", keys)
 	run.RaceCheck("")
 	run.Finish(2000, 1000)
+}
+
+// ---------------------------------------------------------------------------------------------------------
+// refresh path, what reaches the session STORE: the answer to the refreshing request is not the only place a session
+// built from the refreshed token can end up. With the Redis store a refreshed session is written to the store before it
+// is validated; if validation then fails the proxy removes it again — so the client-visible outcome ("signed out") hides
+// that a session was created from the token. Here the store's DEL fails (an ordinary store fault), so whatever was
+// written stays: presenting the original ticket cookie afterwards shows it. Invariant: that session is the unchanged
+// identity A (with A's ID token) or none, unless the reference accepts the refreshed token.
+func (r *c04Runner) storedRefresh(cfgs []*c04Cfg) {
+	run := r.run
+	var src *c04Cfg
+	for _, c := range cfgs {
+		if c.Name == "disc-redis" {
+			src = c
+		}
+	}
+	if src == nil {
+		return
+	}
+	hub := vfNewRedisHub(r.w.Redis())
+	defer hub.Close()
+	front := hub.Front(0)
+	cfg := *src
+	cfg.Name = "disc-redis-del-fails"
+	cfg.Flags = nil
+	for _, f := range src.Flags {
+		if strings.HasPrefix(f, "--redis-connection-url=") {
+			f = "--redis-connection-url=" + front.URL("max_retries=0")
+		}
+		cfg.Flags = append(cfg.Flags, f)
+	}
+	p, err := c04Build(r.w, &cfg)
+	if err != nil {
+		run.T.Fatalf("c04: config %s: %v", cfg.Name, err)
+	}
+	cfg.P = p
+	base := c04Baseline(&cfg, false)
+	specs := []c04Spec{base}
+	for _, e := range []string{"-1h", "-90s"} {
+		specs = append(specs, base.with(3, e))
+		for _, sg := range []string{"foreign-otherkid", "foreign-samekid", "none", "badsig"} {
+			specs = append(specs, base.with(3, e).with(0, sg))
+		}
+	}
+	for _, d := range [][2]string{{"0", "foreign-otherkid"}, {"0", "none"}, {"1", "other"}, {"2", "other"}, {"4", "false"}, {"3", "missing"}} {
+		dim, _ := strconv.Atoi(d[0])
+		specs = append(specs, base.with(dim, d[1]))
+	}
+	if run.Env.Thorough() {
+		rng := rand.New(rand.NewSource(run.Env.Seed*1000003 + 7777))
+		seen := map[c04Spec]bool{}
+		for _, s := range specs {
+			seen[s] = true
+		}
+		for _, s := range c04Specs(rng, base, false, 60) {
+			if !seen[s] && s.Claims != "long" {
+				specs = append(specs, s)
+			}
+		}
+	}
+	var rcs []*c04Refresh
+	for n, s := range specs {
+		rcs = append(rcs, &c04Refresh{cfg: &cfg, s: s, n: n})
+	}
+	clock.Set(time.Now().Add(-10 * time.Minute))
+	vfParallel(len(rcs), 16, func(i int) { r.refreshLogin(rcs[i]) })
+	clock.Reset()
+	hub.SetHooks(func(c *vfRedisCmd) vfRedisDecision {
+		if c.Op == "DEL" {
+			return vfRedisDecision{Fault: &vfRedisFault{Kind: "err-before"}}
+		}
+		return vfRedisDecision{}
+	}, nil)
+	defer hub.SetHooks(nil, nil)
+	vfParallel(len(rcs), 8, func(i int) {
+		rc := rcs[i]
+		if rc.loginErr != nil {
+			r.refreshProbe(rc)
+			return
+		}
+		hv := vfCookieHeader(rc.b.Jar.For(rc.b.Host, "/", false))
+		r.refreshProbe(rc)
+		rc.mu.Lock()
+		t, tokA := rc.tokB, rc.tokA
+		rc.mu.Unlock()
+		if t.Raw == "" || hv == "" {
+			return
+		}
+		ref := c04Reference(t, &cfg, false)
+		rep := c04Observe(r.w, func(q *vfReq) *vfResp { return cfg.P.Do(q.H("Cookie", hv)) })
+		run.Eval(r.cell(&cfg, "refresh", rc.s, ref))
+		run.Count("refresh_stored_session_replays", 1)
+		if !rep.session() {
+			run.Count("refresh_stored_none", 1)
+			return
+		}
+		isA := func(user, email, groups, pu string) bool {
+			return user == rc.identA.Sub && email == rc.identA.Email && groups == strings.Join(rc.identA.Groups, ",") && pu == rc.identA.PU
+		}
+		repA := (rep.UserinfoCode != 200 || isA(rep.User, rep.Email, strings.Join(rep.Groups, ","), rep.PU)) && (!rep.UpHit || (isA(rep.UpUser, rep.UpEmail, rep.UpGroups, rep.UpPU) && rep.UpIDToken == tokA))
+		if repA {
+			run.Count("refresh_stored_A", 1)
+			return
+		}
+		run.Count("refresh_stored_B", 1)
+		if ref.V == c04Bad {
+			ro := c04RefreshObs{Probe: rep, Outcome: "B", A: rc.identA}
+			run.Violation("c04:session-from-invalid-token:refresh-stored", fmt.Sprintf("[%s] refresh path: the session store holds a session built from a refreshed ID token the reference rejects (clauses %v; %s); presenting the original ticket cookie afterwards gives user %q", cfg.Name, ref.Clauses, rc.s, rep.User+rep.UpUser),
+				r.detail(&cfg, "refresh", rc.s, "", t, ref, ro, "the store's DEL command fails in this configuration: what the refresh wrote to the store stays there; observed = the request presenting the ticket cookie after the refreshing request"))
+		}
+	})
 }
